@@ -31,6 +31,7 @@ def cfg_for(gated: set) -> pg.GenCfg:
     cfg = pg.GenCfg()
     cfg.twins = True
     cfg.private_name_clashes = True
+    cfg.private_bases = True  # private base classes (with nested public-named classes that have private members) behind public classes
     cfg.reexport_forms = tuple(f for f in forms if f"reexport:{f}" not in gated)
     cfg.p_private_decl = 0.4
     cfg.p_private_mod = 0.35
